@@ -333,8 +333,8 @@ def gen(rng, force=None):
 
     def new_ref(share=None):
         """a (txid, ix) with a first byte from FIRST; `share` = reuse that txid with another index"""
-        for _ in range(100):
-            if share is not None:
+        for attempt in range(100):
+            if share is not None and attempt < 20:
                 txid = share
             else:
                 txid = rng.choice(FIRST) + S.H("tx/%d" % rng.randrange(10**9), 31).hex()
@@ -404,6 +404,17 @@ def gen(rng, force=None):
                 utxos.append(du)
                 lst.append(du["id"])
             lst.extend([au["id"], u["id"]])
+            if (not native) and rng.random() < 0.15:
+                # the UTxO that carries the script at that address is itself spent (its own script unlocks it)
+                m2 = next_marker()
+                o2 = {"op": "x_script_input", "u": au["id"], "script": spec, "script_in": None, "redeemer": red(m2)}
+                a2 = {"kind": "spend", "u": au["id"], "script": spec, "raw": False, "loc": "own", "native": False,
+                      "marker": m2, "datum_mode": "none"}
+                if int(spec[1]) != 3:
+                    o2["datum"] = gen_top_datum(rng)
+                    o2["datum_mode"] = a2["datum_mode"] = "inline"
+                attach.append(a2)
+                ops_free.append(o2)
         a = {"kind": "spend", "u": u["id"], "script": spec, "raw": raw, "loc": loc, "native": native}
         if not native:
             ver = int(spec[1])
